@@ -26,7 +26,7 @@ RULE = ("scenario = server history (<=6 frames: text, binary, fragmented, ping, 
         "every 3rd line in quick): close() from a second thread at every traced line of the loop thread of four reference "
         "runs (plain, with ping thread, during connect, second run).  non-trivial = always (every run ends somehow); "
         "distinct = (ending mode, callback subset, ping?, phase or line of the asynchronous close, second-run mode)")
-ASSUMPTIONS = ["callbacks raising ordinary exceptions are C13's subject and not mixed into C14 histories",
+ASSUMPTIONS = ["a callback raising an ordinary exception does so once; what C13 demands of the delivery after it is not re-checked here",
                "on_error itself never raises; KeyboardInterrupt inside on_close is not generated",
                "bound B = 30 virtual seconds covers the library's 10 s select period + 3 s close wait + 3 s thread join"]
 MODES = ("close_body", "close_nobody", "eof", "reset", "protocol", "utf8", "ping_timeout", "refused", "rejected",
@@ -121,6 +121,11 @@ def gen(rng):
                                                                    {"kind": "prob", "p_line": 1 / 64, "p_call": 0.2},
                                                                    {"kind": "pct", "d": 2, "len": 3000})),
           "seed": rng.randrange(1 << 30)}
+    if rng.random() < 0.12 and first["mode"] in ("close_body", "close_nobody", "cb_close", "eof", "reset") and "on_error" in cbs:
+        cand = [n for n in ("on_open", "on_message", "on_data", "on_ping", "on_pong") if n in cbs and n != first.get("cb")]
+        if cand:
+            sc["raiser"] = rng.choice(cand)
+            return sc
     if rng.random() < 0.15:
         sc["tls"] = True  # SSLDispatcher, pending(), TLS shutdown on the way out
     if first["mode"] in ("close_body", "close_nobody", "cb_close", "thread_close") and first.get("cb") != "on_error" and rng.random() < 0.3:
@@ -220,6 +225,9 @@ def expand(item, seed):
                             r["close_t"] = S + S // 2
                             if ping:
                                 r["close_reply_delay"] = S // 4
+                        if not as_second and not ping and cb is None and mode in ("close_body", "close_nobody", "eof", "reset"):
+                            for rz in ("on_open", "on_message", "on_data", "on_ping"):
+                                yield {"first": r, "callbacks": ALL_CBS, "policy": {"kind": "coop", "p_call": 0.0}, "seed": 3, "raiser": rz}
                         if as_second:
                             if mode in ("thread_close", "ping_timeout_midframe"):
                                 continue
@@ -376,6 +384,14 @@ def run(sc, choices=None):
         cb_all = dict(cbs)
         for k, v in over1.items():
             cb_all[k] = v
+        raiser = sc.get("raiser")
+        if raiser is not None:
+            # one event callback raises an ordinary exception once; the run goes on and ends as scripted; what was reported
+            # to on_error must show in the return value
+            if raiser not in ("on_open", "on_message", "on_data", "on_ping", "on_pong") or raiser in over1 or raiser not in cbs \
+                    or first["mode"] not in ("close_body", "close_nobody", "cb_close", "eof", "reset") or sc.get("second") or sc.get("closer"):
+                raise InvalidScenario("raiser")
+            cb_all[raiser] = {"do": "raise", "nth": 1}
         if sc.get("tls"):
             ro1 = dict(ro1, tls=True)
         if sc.get("reconnect"):
@@ -450,6 +466,11 @@ def run(sc, choices=None):
     for ri, (run_, exp, r) in enumerate(zip(out["runs"], (exp1, exp2), (first, second))):
         if exp is None:
             break
+        if sc.get("raiser") and ri == 0:
+            raised = any(t[2] == "on_error" and t[3] and t[3][0][:2] == ("exc", "RuntimeError") for t in run_.trace)
+            if raised:
+                exp = dict(exp, ret=True)   # an error was reported: "True exactly when an error was reported"
+                res.probes["callback_raised_in_c14"] = 1
         mode = r["mode"]
         if sc.get("closer") and ri == 0 and fired:
             ctx = f"async_close@{phase}"
@@ -591,4 +612,4 @@ def _judge(res, run_, exp, r, ctx, cbs, w, async_close=False):
 
 def sample_view(sc, r):
     return {"first": sc["first"], "second": sc.get("second"), "callbacks": sorted(sc.get("callbacks") or {}), "tls": sc.get("tls"), "reconnect": sc.get("reconnect"),
-            "closer": sc.get("closer"), "policy": sc.get("policy")}
+            "closer": sc.get("closer"), "policy": sc.get("policy"), "raiser": sc.get("raiser")}
